@@ -475,3 +475,5 @@ def run_P(ck):
         report(ck, eng, [('', 'props.C14_P:replay', nat_, None)], kind='S')
         functions_interpreted(ck, eng)
     run_P_any(ck)
+    from props import C14_M
+    C14_M.run_P_map_any(ck)     # maps of any size (comprehensions evaluated on a generic pair)
